@@ -22,6 +22,8 @@ fn dim_values(extended: bool) -> Vec<(&'static str, Option<usize>)> {
         ("18446744073709551616", None),
         ("-1", None),
         ("1.5", None),
+        // a whole but negative float: never a dimension
+        ("-1.0", None),
         // lenient parsers may read these as 2; if the document is accepted at all, 2 is what it states
         ("\"2\"", Some(2)),
         ("null", None),
@@ -63,6 +65,17 @@ impl El for String {
     }
     fn wrong() -> Vec<&'static str> {
         vec!["1", "null", "[]"]
+    }
+}
+
+impl El for () {
+    const NAME: &'static str = "()";
+    fn make(_: usize) {}
+    fn json(&self) -> String {
+        "null".into()
+    }
+    fn wrong() -> Vec<&'static str> {
+        vec!["1", "\"a\"", "[]"]
     }
 }
 
@@ -308,7 +321,7 @@ impl Prop for C19P {
     fn units(&self, tier: Tier) -> Vec<String> {
         let max = tier.pick(4, 5);
         let mut v = Vec::new();
-        for e in ["u32", "String"] {
+        for e in ["u32", "String", "unit"] {
             for s in kind_seqs(max) {
                 let code: String = s.iter().map(|k| format!("{:?}", k)).collect();
                 v.push(format!("{} seq:{}", e, code));
@@ -323,10 +336,10 @@ impl Prop for C19P {
     fn run_unit(&self, unit: &str, ctx: &mut Ctx) {
         let (e, rest) = unit.split_once(' ').unwrap();
         if rest == "toplevel" {
-            if e == "u32" {
-                run_toplevel::<u32>(ctx)
-            } else {
-                run_toplevel::<String>(ctx)
+            match e {
+                "u32" => run_toplevel::<u32>(ctx),
+                "unit" => run_toplevel::<()>(ctx),
+                _ => run_toplevel::<String>(ctx),
             }
             return;
         }
@@ -342,15 +355,15 @@ impl Prop for C19P {
                 _ => Kind::U,
             })
             .collect();
-        if e == "u32" {
-            run_seq::<u32>(&seq, extended, ctx)
-        } else {
-            run_seq::<String>(&seq, extended, ctx)
+        match e {
+            "u32" => run_seq::<u32>(&seq, extended, ctx),
+            "unit" => run_seq::<()>(&seq, extended, ctx),
+            _ => run_seq::<String>(&seq, extended, ctx),
         }
     }
     fn rule(&self) -> String {
         "documents are JSON objects whose member list is ANY sequence (every subset, order and duplication) of up to L members drawn from num_cols:V, num_rows:V, data:D and an unknown member; \
-         V = {0,1,2,3,2^32,2^64-1,2^64,-1,1.5,\"2\",null} (thorough repeats all documents of up to 4 members with 2^63, true, [], 2.0 added); D = arrays of every length in {p-1,p,p+1,0} around the stated product p, arrays with one wrong-typed element, and non-arrays (5, \"x\", null, {}); element types u32 and String; plus non-object and truncated top levels; \
+         V = {0,1,2,3,2^32,2^64-1,2^64,-1,1.5,-1.0,\"2\",null} (thorough repeats all documents of up to 4 members with 2^63, true, [], 2.0 added); D = arrays of every length in {p-1,p,p+1,0} around the stated product p, arrays with one wrong-typed element, and non-arrays (5, \"x\", null, {}); element types u32, String and the zero-sized (); plus non-object and truncated top levels; \
          each document goes through all four transports (from_str, from_slice, from_reader, from_value). Oracle: no panic; Err, or Ok(t) where t satisfies the shape invariant, t's dimensions are values stated for those fields in the document and t's cells are a data member of the document (hence never an overflowing, mismatching or one-zero document). \
          A case is one document (x 4 transports); non-trivial = the document states all three fields; distinct by document text."
             .into()
